@@ -112,6 +112,24 @@ def _text(pdf, pw):
     return extract_text(io.BytesIO(pdf), password=pw)
 
 
+_DECOYS = {}
+
+
+def _decoy(kind):
+    """Another encrypted document (same crypt filter name /StdCF, its own file key) that is opened between opening the
+    document under test and reading its objects: an open document's decryption must not depend on other documents."""
+    if kind not in _DECOYS:
+        V, R, bits, cfm = {"V4-RC4": (4, 4, 128, "V2"), "V4-AES": (4, 4, 128, "AESV2"), "V5": (5, 6, 256, "AESV3"),
+                           "V2": (2, 3, 128, None)}[kind]
+        id0 = b"decoy-id-0123456"
+        h = C.Handler(V, R, bits, cfm, True, C.make_P(True, True, True), id0, "", "decoy-owner", random.Random(99))
+        objs = {1: W.D(Type=W.N("Catalog"), Pages=W.R(2)), 2: W.D(Type=W.N("Pages"), Kids=[W.R(3)], Count=1),
+                3: W.D(Type=W.N("Page"), Parent=W.R(2), MediaBox=[0, 0, 200, 200], Contents=W.R(4)),
+                4: W.Stream({}, b"BT ET"), 5: b"decoy string"}
+        _DECOYS[kind] = C.build_file(objs, {}, {b"Root": W.R(1), b"ID": [id0, id0]}, handler=h)
+    return _DECOYS[kind]
+
+
 def run_case(case):
     from pdfminer.pdfdocument import PDFPasswordIncorrect
     from pdfminer.pdftypes import resolve1
@@ -151,9 +169,14 @@ def run_case(case):
                 doc = _open(pdf, pw)
             except Exception as e:
                 return Outcome(classes, nt, fail="%s rejected: %s: %s; desc=%r" % (who, type(e).__name__, e, desc))
+            if case.get("decoy"):
+                d2 = _open(_decoy(case["decoy"]), "")
+                if bytes(d2.getobj(5)) != b"decoy string":
+                    raise RuntimeError("harness: decoy document %s does not open" % case["decoy"])
             msg = _check_objects(doc, case, who)
             if msg:
-                return Outcome(classes, nt, fail="%s; desc=%r" % (msg, desc))
+                return Outcome(classes, nt, fail="%s%s; desc=%r" % (
+                    msg, " (after opening another encrypted document, %s)" % case["decoy"] if case.get("decoy") else "", desc))
             perm = [bool(doc.is_printable), bool(doc.is_modifiable), bool(doc.is_extractable)]
             if perm != case["perm"]:
                 return Outcome(classes, nt, fail="%s: print/modify/extract reported %r, stored P=%d means %r; desc=%r" % (
@@ -565,11 +588,13 @@ def cases(draw, forced=None):
     nt = bool(mult16 or objstms or (R >= 4 and not em) or distinct_owner or nonascii_pw)
     desc = {"kind": kind, "bits": bits, "em": em, "P": P, "id": idmode, "xref": xref, "objstm": len(objstms),
             "encrypt_indirect": enc_indirect, "nums": {r: list(v) for r, v in num.items()}}
+    decoy = draw(st.sampled_from([None, None, "V4-RC4", "V4-AES", "V5", "V2"]))
     return {"pdf": pdf, "plain": plain, "user": user, "owner": owner_eff, "opens": opens, "wrong": wrong,
             "objs": explist, "payloads": {num[r][0]: p for r, p in payloads.items()}, "text": text,
             "perm": perm, "P": P, "id": idpair, "encrypt_strings": encrypt_strings,
             "encrypt_objnum": num["encrypt"][0] if enc_indirect else None, "xrefstm": xrefstm,
-            "desc": desc, "classes": sorted(set(classes)), "nt": nt}
+            "desc": desc, "classes": sorted(set(classes + (["decoy:" + decoy] if decoy else []))), "nt": nt,
+            "decoy": decoy}
 
 
 def plan(tier):
